@@ -30,7 +30,7 @@ ORACLE_OWNER = {
     "lost": ["C01"], "phantom": ["C01", "C02"], "body": ["C01"], "pub": ["C01"],
     "settle": PROPS_ALL, "settle-count": ["C13", "C01"], "settle-ledger": ["C01", "C02", "C13"],
     "settle-stall": ["C03", "C01"], "settle-pausedpump": ["C03"], "client-count": ["C13", "C03"], "chan-count": ["C13"],
-    "late-answer": ["C02"], "fin-final": ["C02"], "fanout-missed": ["C01"], "sched": PROPS_ALL,
+    "envelope": ["C01"], "late-answer": ["C02"], "fin-final": ["C02"], "fanout-missed": ["C01"], "sched": PROPS_ALL,
     "conc-after-fin": ["C02"], "conc-pub": ["C01"], "conc-sub": ["C03"], "conc-err": ["C02"], "conc-frame": ["C01"], "missed-defer": ["C01"], "early-defer": ["C01"], "req-defer": ["C01"],
     "no-reply": ["C01", "C02", "C03", "C13"], "stray-frame": ["C02", "C03"], "exit-hang": ["C01"],
     "rdy": ["C03"], "rdy-range": ["C03"], "paused-deliver": ["C03"], "topic-pause": ["C03"],
